@@ -344,6 +344,25 @@ class Run:
         eq = self.cfg.get("line_equal")
         if eq:
             return eq(cmd, a, b)
+        if cmd == "areas" and a != b:
+            # the area list is a set of (name, start, length, access, data): its order is an implementation detail, and so
+            # are names the emulator invents itself (stack, ELF segments, heap) - only names the case passed in are compared
+            def canon(line):
+                if line in ("none", "unspecified"):
+                    return line
+                out = []
+                for t in line.split(" "):
+                    f = t.split(",")
+                    if len(f) != 6:
+                        return line
+                    if f[0] not in getattr(self, "_given", set()) and f[0] != "~":
+                        f[0] = "*"
+                    out.append((int(f[1], 16), int(f[2], 16), ",".join(f)))
+                return " ".join(x[2] for x in sorted(out))
+            try:
+                return canon(a) == canon(b)
+            except ValueError:
+                return False
         if a != b and "=?" in b:
             # a field the model declares unknown (flags after a failed instruction)
             ta, tb = a.split(" "), b.split(" ")
@@ -352,6 +371,7 @@ class Run:
 
     def diff_case(self, cmds, impl, model):
         """index of first differing line in a case or None"""
+        self._given = {c.split(" ")[-1] for c in cmds if c.split(" ", 1)[0] in ("area", "areaz", "zero", "any", "anyz")}
         for i, (c, a, b) in enumerate(zip(cmds, impl, model)):
             if not self.line_equal(c, a, b):
                 return i
@@ -592,6 +612,14 @@ class Run:
                         break
                 if oracle:
                     msgs += oracle(case, ci)
+                else:
+                    # no property tolerates a crash of the code under test: a panic/abort/hang is reported even when the
+                    # model predicts it (a modelled crash site that inputs reach is a defect, not an agreement)
+                    for c, a in zip(case, ci):
+                        w = a.split(" ", 1)[0] if a else ""
+                        if w in ("panic", "abort", "hang"):
+                            msgs.append(f"crash:{w}:{c.split(' ')[0]}")
+                            break
                 if msgs:
                     oracle_fail.append((case, ci, cm, msgs))
         if not samples and results and results[0][0]:
@@ -678,7 +706,7 @@ class Run:
             if callable(spec_det):
                 spec_det = spec_det(small, si, sm, dd)
             kind = "impl-vs-spec" if spec_det else "model-disagreement"
-            path = self.write_replay(kind, small, si, sm, dd, {"aspect": key,
+            path = self.write_replay(kind, small, si, sm, dd, {"aspect": key, "unshrunk_commands": case if len(case) < 400 else case[:400],
                                      "note": "implementation deviates from the model the theorems are about" +
                                      ("; the deviating output is fixed by the property's specification, so this case is a failing input"
                                       if spec_det else "; the specification does not by itself condemn this output")})
